@@ -45,6 +45,8 @@ type Node struct {
 
 // Cluster is a set of Dirk instances connected only by the simulated transport.
 type Cluster struct {
+	// PromptUse: a generating client uses the account at once (see spawnGenerate).
+	PromptUse  bool
 	realSender bool
 	// OmitPassphrase: generation requests of clients carry no passphrase (the configured one is used).
 	OmitPassphrase bool
